@@ -101,3 +101,25 @@ package providers
 //@   ensures [C04] validity_from_login: result.1 == nil ==> result.0.ValidDeadline <= clock + p.SessionValidTTL && result.0.GracePeriodStart == ZERO
 //@   ensures [C13] slug_stamped: result.1 == nil ==> result.0.ProviderSlug == p.ProviderSlug
 //@   ensures [C06] empty_code_refused: code == "" ==> result.1 != nil && !called(@Do#1)
+
+// ---- C19: the signed return address the proxy hands to the authenticator ----------------------------------
+//@ func (p *SSOProvider) signRedirectURL(rawRedirect string, timestamp time.Time) string
+//@   modifies nothing
+//@   ensures [C19] signature: result == b64enc(base64.URLEncoding, hmacOf(p.ClientSecret, rawRedirect + itoa((timestamp - unixTime(0)) / 1000000000)))
+
+// Q: the query parameters encoded into the sign-out URL; raw: the return address as a string.
+//@ func (p *SSOProvider) GetSignOutURL(redirectURL *url.URL) *url.URL
+//@   requires no_preset_query: p.SignOutURL.RawQuery == ""
+//@   modifies clock
+//@   fresh result
+//@   let Q = arg(@Encode#1, 0)
+//@   let raw = @String#1
+//@   let secs = (clock - unixTime(0)) / 1000000000
+//@   ensures [C19] to_sign_out_endpoint: result != nil && result.Scheme == p.SignOutURL.Scheme && result.Host == p.SignOutURL.Host && result.Path == p.SignOutURL.Path && called(@Encode#1) && result.RawQuery == @Encode#1
+//@   ensures [C19] carries_return_address: called(@String#1) && arg(@String#1, 0) == redirectURL && at(@Encode#1, formGet(Q, "redirect_uri")) == raw
+//@   ensures [C19] signed_with_client_secret: at(@Encode#1, formGet(Q, "ts")) == itoa(secs) && at(@Encode#1, formGet(Q, "sig")) == b64enc(base64.URLEncoding, hmacOf(p.ClientSecret, raw + itoa(secs)))
+
+//@ interface Provider.GetSignOutURL(redirectURL *url.URL) *url.URL
+//@   modifies clock
+//@   fresh result
+//@   ensures result != nil
